@@ -11,8 +11,16 @@
     pod without a valid eviction is itself a rollback of that eviction).
     An Evict of a pod that the dump taken before it shows Releasing (evicted
     earlier, or terminating) is no step of the history: a Commit must not emit
-    anything for it, a Rollback / Discard has nothing to undo for it. *)
-From KaiV Require Export Run.Cycle Model.Session Model.SessionSpec.
+    anything for it, a Rollback / Discard has nothing to undo for it.
+    A third, metamorphic part ([erasure_ok]): every well-formed program with a
+    Rollback or Discard was also run, on a second identically built real session
+    and under the same failure oracle, WITHOUT the commands its rollbacks /
+    discards undo ([k_erase]: the erased program, the Cache calls of every Commit
+    of both runs with all their arguments, both final states with every pod's
+    accepted resources and the queue usage the allocate / deallocate events
+    carried).  The two runs must agree: abandoned what-if steps can neither
+    influence what is emitted nor what the session ends with. *)
+From KaiV Require Export Run.Cycle Model.Session Model.SessionSpec Model.SessionErase.
 Open Scope Z_scope.
 
 Record ojob := mkOJ { oj_alloc : res; oj_active : Z; oj_idx : list Z; oj_psets : amap psview }.
@@ -22,8 +30,24 @@ Record ostep := mkOS {
   os_cmd : cmd; os_err : bool; os_ret : nat; os_calls : list api_call;
   os_nodes : amap (option obs); os_pods : option (amap pview);
   os_jobs : option (amap ojob); os_queues : option (amap res) }.
+(** a Cache call as the recording cache saw it: kind (0 Bind, 1 Evict, 2 TaskPipelined), pod, node
+    (hostname of Bind / NodeName of the nominated pod), GPU groups of the passed pod, and the other
+    arguments as integers (Bind: received resource type, ReceivedGPU.Count, ReceivedGPU.Portion x 100,
+    accepted GPU memory, accepted cpu / memory / GPUs x 1000 as the proportion plugin quantifies them,
+    number of DRA claim allocations, number and fingerprint of the bind-request annotations; Evict:
+    fingerprints of action / preemptor / message and the gang size; TaskPipelined: message fingerprint) *)
+Record xcall := mkXC { xc_kind : nat; xc_pod : positive; xc_node : option positive; xc_groups : list positive; xc_args : list Z }.
+(** the end of a run: the full dump, per pod what setAcceptedResources left in it (received type, devices,
+    portion x 100, GPU memory, quantified cpu / memory / GPUs x 1000), per queue the net amount the
+    allocate / deallocate events of the session carried (what the proportion plugin accumulated) *)
+Record xfinal := mkXF { xf_dump : odump; xf_acc : amap (list Z); xf_charged : amap res }.
+Record erun := mkER {
+  er_cmds : list cmd;                 (* the erased program, as the harness computed it *)
+  er_calls_p : list (list xcall);     (* per Commit of the program, the calls of the full run *)
+  er_calls_e : list (list xcall);     (* the same for the erased run *)
+  er_final_p : xfinal; er_final_e : xfinal }.
 Record pcase := mkPC {
-  k_init : sess; k_fails : list nat; k_wf : bool; k_dump0 : odump; k_steps : list ostep }.
+  k_init : sess; k_fails : list nat; k_wf : bool; k_dump0 : odump; k_steps : list ostep; k_erase : option erun }.
 Inductive case := KProg (k : pcase) | KCycle (k : ccase).
 
 Definition resolve (prev : odump) (st : ostep) : odump :=
@@ -89,6 +113,31 @@ Fixpoint steps_agree (fails : nat -> bool) (s : sess) (prev : odump) (ss : list 
 
 Definition prog_of (k : pcase) : list cmd := map os_cmd (k_steps k).
 
+Definition opt_groups_eqb (a b : option (list positive)) : bool :=
+  match a, b with Some x, Some y => list_eqb Pos.eqb x y | None, None => true | _, _ => false end.
+Definition cmd_eqb (a b : cmd) : bool :=
+  match a, b with
+  | Evict p, Evict q | Unevict p, Unevict q | Convert p, Convert q => Pos.eqb p q
+  | Pipeline p n g u, Pipeline q m h v => Pos.eqb p q && Pos.eqb n m && opt_groups_eqb g h && Bool.eqb u v
+  | Allocate p n g, Allocate q m h => Pos.eqb p q && Pos.eqb n m && opt_groups_eqb g h
+  | Checkpoint, Checkpoint | Discard, Discard | Commit, Commit => true
+  | Rollback x, Rollback y => Nat.eqb x y
+  | _, _ => false
+  end.
+Fixpoint list_match {A B} (e : A -> B -> bool) (a : list A) (b : list B) : bool :=
+  match a, b with
+  | [], [] => true
+  | x :: r, y :: t => e x y && list_match e r t
+  | _, _ => false
+  end.
+(** a call of the model against a recorded call: kind, pod, node, GPU groups *)
+Definition xcall_matches (a : api_call) (x : xcall) : bool :=
+  match a with
+  | ABind p n g => Nat.eqb (xc_kind x) 0 && Pos.eqb p (xc_pod x) && opt_pos_eqb (Some n) (xc_node x) && list_eqb Pos.eqb g (xc_groups x)
+  | AEvict p => Nat.eqb (xc_kind x) 1 && Pos.eqb p (xc_pod x)
+  | APipe p n g => Nat.eqb (xc_kind x) 2 && Pos.eqb p (xc_pod x) && opt_pos_eqb n (xc_node x) && list_eqb Pos.eqb g (xc_groups x)
+  end.
+
 (** number of leading commands satisfying [wf_cmd] *)
 Fixpoint wf_prefix (fails : nat -> bool) (stk : list nat) (conv : bool) (s : sess) (prog : list cmd) : nat :=
   match prog with
@@ -106,7 +155,17 @@ Definition prog_agrees (k : pcase) : bool :=
   (* programs generated from the status preconditions alone satisfy the full well-formedness predicate *)
   && (if k_wf k then wf_prog (fails_of k) (k_init k) (prog_of k) else true)
   (* hypothesis of C13_commit_log_spec: the pod map of the initial session is keyed by pod id *)
-  && keyed_b (k_init k).
+  && keyed_b (k_init k)
+  (* the erased program is the model's [erase] of the program; run on the model it is well-formed and ends in the
+     dump the second real session ended in, with the same calls *)
+  && (match k_erase k with
+      | None => true
+      | Some e =>
+          list_eqb cmd_eqb (erase (fails_of k) (k_init k) (prog_of k)) (er_cmds e)
+          && wf_prog (fails_of k) (k_init k) (er_cmds e)
+          && dump_matches (Session.run (fails_of k) (k_init k) (er_cmds e)) (xf_dump (er_final_e e))
+          && list_match (list_match xcall_matches) (commit_calls (fails_of k) (k_init k) (er_cmds e)) (er_calls_e e)
+      end).
 
 (** * The property on the real dumps *)
 
@@ -342,6 +401,89 @@ Fixpoint mon (k : pcase) (ncalls : nat) (start : odump) (cps : list (nat * odump
 Definition prog_monitor (k : pcase) : bool * bool :=
   if k_wf k then mon k 0 (k_dump0 k) [] (exposed_nodes k (k_dump0 k)) [[]] [] (k_dump0 k) (k_steps k) else (true, false).
 
+(** * Erasure: the run of the program against the run of the program without its abandoned parts
+
+    Evaluated on the real outputs only.
+    (a) every Commit emits the same Cache calls in the same order with the same arguments: for Bind the
+        node, the GPU groups (both runs use one numbering of group names), the received resource type,
+        device count, portion and GPU memory and the quantities the queue is charged; for Evict the pod
+        and the eviction metadata; for TaskPipelined pod, node and groups;
+    (b) the two sessions end in the same projection: every pod's status, node, virtual flag and GPU groups,
+        the accepted resources of every pod that holds resources by a decision that stands (active
+        allocated status), every job's books, every queue's usage (Session.QueueAllocatedResources and the
+        exact amounts the allocate / deallocate events carried), every node.
+    Exceptions, both already part of the rollback clause: the GPU groups recorded in a shared pod that
+    holds nothing (Pending, or evicted: the callers assign GPUGroups before Pipeline / Allocate and
+    unpipeline / unallocate restore the assigned value; Commit of the eviction only clears the virtual
+    flag) and, for nodes that met the exposure condition of known finding C14-device-guard during the
+    full run, the whole-GPU idle / releasing columns. *)
+Definition xcall_eqb (a b : xcall) : bool :=
+  Nat.eqb (xc_kind a) (xc_kind b) && Pos.eqb (xc_pod a) (xc_pod b) && opt_pos_eqb (xc_node a) (xc_node b)
+  && list_eqb Pos.eqb (xc_groups a) (xc_groups b) && list_eqb Z.eqb (xc_args a) (xc_args b).
+
+(** nodes that met the exposure condition in some dump of the full run *)
+Fixpoint exposed_along (k : pcase) (prev : odump) (ss : list ostep) : list positive :=
+  match ss with
+  | [] => []
+  | st :: r => let d := resolve prev st in exposed_nodes k d ++ exposed_along k d r
+  end.
+
+Definition masked_e (k : pcase) (pid : positive) (v : pview) : bool :=
+  match static_task k pid with
+  | Some t => is_shared t && (status_eqb (v_status v) Pending || status_eqb (v_status v) Releasing)
+  | None => false
+  end.
+Fixpoint pods_same_e (k : pcase) (a b : amap pview) : bool :=
+  match a, b with
+  | [], [] => true
+  | (p, x) :: r, (p', y) :: r' =>
+      Pos.eqb p p' && status_eqb (v_status x) (v_status y) && opt_pos_eqb (v_node x) (v_node y)
+      && Bool.eqb (v_virt x) (v_virt y) && (list_eqb Pos.eqb (v_groups x) (v_groups y) || masked_e k p x)
+      && pods_same_e k r r'
+  | _, _ => false
+  end.
+(** accepted resources: compared for the pods that are active allocated at the end *)
+Definition acc_same (d : odump) (a b : amap (list Z)) : bool :=
+  same_keys a b
+  && forallb (fun kv => match pstatus d (fst kv), alookup (fst kv) b with
+                        | Some v, Some y => negb (active_allocated (v_status v)) || list_eqb Z.eqb (snd kv) y
+                        | _, _ => false
+                        end) a.
+
+(** a node of the two final states: 0 equal; 1 equal except the whole-GPU columns, and the node met the
+    exposure condition of C14-device-guard during the full run; 3 different *)
+Definition node_class (exp : list positive) (n : positive) (x y : obs) : nat :=
+  if obs_same x y then 0%nat
+  else if obs_same_but_gpu x y && existsb (Pos.eqb n) exp then 1%nat
+  else 3%nat.
+Fixpoint node_classes (exp : list positive) (a b : amap obs) : list nat :=
+  match a, b with
+  | [], [] => []
+  | (n, x) :: r, (n', y) :: r' => (if Pos.eqb n n' then node_class exp n x y else 3%nat) :: node_classes exp r r'
+  | _, _ => [3%nat]
+  end.
+
+Definition finals_same (k : pcase) (exp : list positive) (p e : xfinal) : bool * list nat :=
+  (pods_same_e k (od_pods (xf_dump p)) (od_pods (xf_dump e))
+   && acc_same (xf_dump p) (xf_acc p) (xf_acc e)
+   && amap_eqb ojob_eqb (od_jobs (xf_dump p)) (od_jobs (xf_dump e))
+   && amap_eqb req (od_queues (xf_dump p)) (od_queues (xf_dump e))
+   && amap_eqb req (xf_charged p) (xf_charged e),
+   node_classes exp (od_nodes (xf_dump p)) (od_nodes (xf_dump e))).
+
+(** (ok, the two runs agree only modulo the whole-GPU columns of an exposed node) *)
+Definition erasure_check (k : pcase) : bool * bool :=
+  match k_erase k with
+  | None => (true, false)
+  | Some e =>
+      if negb (k_wf k) then (true, false) else
+      let exp := exposed_nodes k (k_dump0 k) ++ exposed_along k (k_dump0 k) (k_steps k) in
+      let '(rest, cl) := finals_same k exp (er_final_p e) (er_final_e e) in
+      let ok := list_eqb (list_eqb xcall_eqb) (er_calls_p e) (er_calls_e e) && rest && negb (existsb (Nat.eqb 3) cl) in
+      (ok, ok && existsb (Nat.eqb 1) cl)
+  end.
+Definition erasure_ok (k : pcase) : bool := fst (erasure_check k).
+
 (** * Real cycles: at most one call of each kind per pod
 
     C13's "evicted at most once" is a statement about ONE Commit.  The calls of a cycle come
@@ -378,11 +520,12 @@ Definition cycle_once (k : ccase) : bool :=
 Definition model_agrees (c : case) : bool :=
   match c with KProg k => prog_agrees k | KCycle k => cycle_agrees k end.
 Definition monitor_ok (c : case) : bool :=
-  match c with KProg k => fst (prog_monitor k) | KCycle k => cycle_once k end.
-(** flag 1: known finding C14-device-guard manifested *)
+  match c with KProg k => fst (prog_monitor k) && erasure_ok k | KCycle k => cycle_once k end.
+(** flag 1: known finding C14-device-guard manifested (a restore, or the two runs of the erasure clause, agree
+    only modulo the whole-GPU columns of an exposed node) *)
 Definition flags (c : case) : list nat :=
   match c with
-  | KProg k => if snd (prog_monitor k) then [1%nat] else []
+  | KProg k => if snd (prog_monitor k) || snd (erasure_check k) then [1%nat] else []
   | KCycle k => cycle_flags k
   end.
 Definition run_mismatches (cs : list (nat * case)) : list nat := failing (fun k => negb (model_agrees k)) cs.
